@@ -958,6 +958,9 @@ m("c05-precompile-commits-instead-of-flushing", "C05", "precompiles/distribution
 m("c05-flush-deletes-selfdestructed", "C05", "x/evm/statedb/statedb.go",
   "\t\tif obj.suicided && deleteSuicided {", "\t\tif obj.suicided || deleteSuicided && obj.suicided {",
   "delete-only-when-final", "the write-back loop deletes self-destructed accounts on every flush")
+m("c07-call-value-unguarded", "C07", "precompiles/common/precompile.go",
+  "\tcase contract.Value() != nil && contract.Value().Sign() > 0 && p.HasReceive():", "\tcase contract.Value().Sign() > 0 && p.HasReceive():",
+  "call-value-Sign-1-nil-guarded", "the call value is dereferenced without a nil test")
 for prop in ("C16", "C07"):
     m("c%s-gas-meter-without-precharge" % prop[1:], prop, "precompiles/common/precompile.go",
       "sdk.NewGasMeter(initialGas + contract.Gas)", "sdk.NewGasMeter(contract.Gas)",
